@@ -195,7 +195,7 @@ func runWorker(w, workers int, sel []Kind, seed uint64, tier string, scale float
 				verdict, orig = line[:k], line[k+4:]
 			}
 			prio := 2
-			if strings.Contains(verdict, "wf=f") {
+			if strings.Contains(verdict, "wf=f") && strings.Contains(verdict, "kf=-") {
 				// outside the property's quantifier the predicate claims nothing: correspondence only
 				verdict = strings.Replace(verdict, "pred=f", "pred=t", 1)
 			}
